@@ -183,6 +183,9 @@ type callCase struct {
 	// statement, a case clause, a for header, a comment, ... — the method appends a statement of its own
 	// whatever came before
 	Before string `json:"before,omitempty"`
+	// Seed drives the form policy of the builds that use one (nested items in other forms, a callback group
+	// that is filled partly after the ...Func call returned, Commentf operands that format themselves)
+	Seed uint64 `json:"seed,omitempty"`
 }
 
 // each entry builds the same statement twice: through the *Group methods (as a user filling a group would)
@@ -327,6 +330,22 @@ func checkCall(cc callCase) error {
 		}
 		b4 := &recipe.Builder{}
 		if err := add("Func variant (method)", b4, func() jen.Code { return b4.CallMethod(&jen.Statement{}, fn+"Func", c) }); err != nil {
+			return err
+		}
+		if cc.Seed != 0 {
+			b4a := &recipe.Builder{Forms: recipe.Seeded(cc.Seed)}
+			if err := add("Func variant (function; nested items in other forms)", b4a, func() jen.Code { return b4a.CallFunc(fn+"Func", c) }); err != nil {
+				return err
+			}
+		}
+	}
+	if cc.Seed != 0 {
+		b4b := &recipe.Builder{Forms: recipe.Seeded(cc.Seed + 1)}
+		if err := add("function form (nested items in other forms)", b4b, func() jen.Code { return b4b.CallFunc(fn, c) }); err != nil {
+			return err
+		}
+		b4c := &recipe.Builder{Forms: recipe.Seeded(cc.Seed + 2)}
+		if err := add("statement built under the form policy", b4c, func() jen.Code { return b4c.Stmt(&recipe.Node{Kind: recipe.KStmt, Calls: []recipe.Call{*c}}) }); err != nil {
 			return err
 		}
 	}
@@ -685,6 +704,7 @@ func TestC14(t *testing.T) {
 			if rapid.Bool().Draw(rt, "hasbefore") {
 				c.Before = rapid.SampledFrom(beforeNames()).Draw(rt, "before")
 			}
+			c.Seed = rapid.Uint64Range(1, 1<<40).Draw(rt, "formseed")
 			r.NonTrivial(recipe.JSON(c))
 			r.Class("construct:" + sig.Name)
 			return c
